@@ -248,9 +248,7 @@ theorem step_local {sh : Sh} {t : Tid} {pc : Pc} {op : Op} {sh' : Sh} {pc' : Pc}
   | wSleep g0 gg =>
     simp only [step, List.mem_append] at h
     rcases h with h | h
-    · split at h
-      · simp at h; obtain ⟨rfl, rfl⟩ := h; exact same_lists g l rfl Iff.rfl rfl rfl rfl ga rfl rfl rfl
-      · simp at h
+    · simp at h; obtain ⟨rfl, rfl⟩ := h; exact same_lists g l rfl Iff.rfl rfl rfl rfl ga rfl rfl rfl
     · simp at h; obtain ⟨rfl, rfl⟩ := h
       refine same_lists g l rfl Iff.rfl rfl rfl rfl ga ?_ ?_ ?_ <;> split <;> rfl
   | wRet ok sl =>
